@@ -197,7 +197,7 @@ def gen_handle(seed, tier):
                     "nservers": ch.randint("config", "ns", 2, 4), "append": ch.chance("config", "append", 0.1),
                     "knobs": {"mseg": seg},
                     "net": {"threads": ch.pick("config", "threads", ["sync", "async"]), "lat_profile": ch.pick("config", "lat", ["uniform", "heavy", "fifo"]),
-                            "jitter": ch.pick("config", "jit", [0.0005, 0.005, 0.05]), "base_lat": 0.001}},
+                            "jitter": ch.pick("config", "jit", [0.0005, 0.005, 0.05]), "base_lat": 0.001, "batch": ch.pick("config", "batch", [0, 0, 0, 0.001, 0.02, 0.3])}},
             "ops": ops}
 
 
